@@ -372,6 +372,16 @@ func (n *node) RegisterName(name gen.Atom, pid gen.PID) error {
 	lib.VerifPoint("name.set", p)
 	p.name = name
 
+	if p.isAlive() == false {
+		// the process has been terminated meanwhile and its cleanup could have
+		// missed this name (p.name was not assigned yet). take it back.
+		if n.names.CompareAndDelete(name, p) {
+			pname := gen.ProcessID{Name: name, Node: n.name}
+			n.RouteTerminateProcessID(pname, gen.ErrUnregistered)
+		}
+		return gen.ErrProcessTerminated
+	}
+
 	return nil
 }
 
@@ -1776,9 +1786,11 @@ func (n *node) unregisterProcess(p *process, reason error) {
 
 	lib.VerifPoint("unreg.name", p)
 	if p.registered.Load() {
-		n.names.Delete(p.name)
-		pname := gen.ProcessID{Name: p.name, Node: n.name}
-		n.RouteTerminateProcessID(pname, reason)
+		// delete the name only if it still belongs to this process
+		if n.names.CompareAndDelete(p.name, p) {
+			pname := gen.ProcessID{Name: p.name, Node: n.name}
+			n.RouteTerminateProcessID(pname, reason)
+		}
 	}
 
 	lib.VerifPoint("unreg.alias", p)
